@@ -48,7 +48,7 @@ PROPS = {
         "level_text": "Bounded random exploration: tens of thousands of generated (configuration, write program, chunking, read program) cases per run, boundary-biased, judged against the list of messages the program sent. Exploration is the right level because the property quantifies over unbounded inputs and programs; nothing finite enumerates them.",
         "level_note": "Oracle is the harness's own record of what it asked the API to send; the reader under test is the library's, so symmetric writer/reader mistakes are left to C02/C03 (independent codec).",
         "technique": "property-based testing (rapid): generated write/read programs, round-trip oracle, shrinking",
-        "legs": [leg("^TestC01$", 5000, 40000, qshards=8), fuzzleg("FuzzC01", 60)],
+        "legs": [leg("^TestC01$", 5000, 160000, qshards=8), fuzzleg("FuzzC01", 60)],
     },
     "C02": {
         "title": "Everything written to the wire is well-formed RFC 6455 / RFC 7692 framing",
@@ -58,7 +58,7 @@ PROPS = {
         "level_text": "Bounded random exploration of write programs; every byte the connection hands to the transport is judged by an independent strict RFC 6455/7692 decoder and matched to the API-level messages. Exploration because the input space is unbounded.",
         "level_note": "Independent decoder wsref (self-tested on the RFC 6455 5.7 and RFC 7692 7.2.3 byte strings); compress/flate is trusted for inflation; the mask-key clause uses the verif hook (falls back to a statistical check if the tagged build fails).",
         "technique": "property-based testing (rapid): generated write programs, independent-decoder differential oracle",
-        "legs": [leg("^TestC02$", 5000, 40000, qshards=8), fuzzleg("FuzzC02", 60)],
+        "legs": [leg("^TestC02$", 5000, 160000, qshards=8), fuzzleg("FuzzC02", 60)],
     },
     "C03": {
         "title": "The reader decodes any conformant peer stream, however fragmented or read",
@@ -68,7 +68,7 @@ PROPS = {
         "level_text": "Bounded random exploration of conformant streams x read programs x chunkings against a reference model of what the stream encodes; the encoder and the deflate producers are independent of the library.",
         "level_note": "Reference encoder/deflaters in harness/wsref, self-tested on RFC byte vectors; ReadJSON is judged differentially against encoding/json on the true payload.",
         "technique": "property-based testing (rapid): independent encoder as generator, reference-model oracle, shrinking",
-        "legs": [leg("^TestC03$", 4000, 40000, qshards=8), leg("^TestC03Sweep$", 1, 1, qshards=8, tshards=16), fuzzleg("FuzzC03", 60)],
+        "legs": [leg("^TestC03$", 4000, 120000, qshards=8), leg("^TestC03Sweep$", 1, 1, qshards=8, tshards=16), fuzzleg("FuzzC03", 60)],
         "sweep_note": "the driver treats legs whose test name ends in Sweep$ or Cells$ as enumerations",
     },
     "C04": {
@@ -81,7 +81,7 @@ PROPS = {
         "level_text": "The header alphabet is finite and is enumerated completely in every run (29696 cells); the history quantifier is explored by random prefixes. Each cell is one injected protocol fault, hence fault_enumeration.",
         "level_note": "Independent classifier written from RFC 6455 5.2/5.4/5.5/7.4 in harness/props/c04.go; valid cells are cross-checked against the reference decoder so the classifier cannot drift to reject-everything.",
         "technique": "exhaustive alphabet enumeration + property-based testing (rapid) of prefix histories, independent classifier oracle",
-        "legs": [leg("^TestC04Cells$", 1, 1, qshards=8, tshards=16), leg("^TestC04Hist$", 6000, 40000, qshards=8), fuzzleg("FuzzC04Hist", 60)],
+        "legs": [leg("^TestC04Cells$", 1, 1, qshards=8, tshards=16), leg("^TestC04Hist$", 6000, 200000, qshards=8), fuzzleg("FuzzC04Hist", 60)],
     },
     "C05": {
         "title": "No silent truncation: a transport fault yields whole messages, then an error",
@@ -91,7 +91,7 @@ PROPS = {
         "level_text": "Every byte offset of each generated stream is cut by every fault kind (exhaustive per stream up to 600 bytes); streams themselves are sampled.",
         "level_note": "Reference model from the independent encoder; which transport read failed is taken from the scripted transport's own accounting.",
         "technique": "fault-injection enumeration (every offset x every fault kind) over rapid-generated streams",
-        "legs": [leg("^TestC05$", 150, 800, qshards=8)],
+        "legs": [leg("^TestC05$", 150, 2400, qshards=8)],
     },
     "C06": {
         "title": "Read limit is exact, history-independent and bounds memory",
@@ -101,7 +101,7 @@ PROPS = {
         "level_text": "Bounded random exploration over limits, histories and 64-bit length corners with a reference model of which messages are within the limit.",
         "level_note": "Streams come from the independent encoder (claimed lengths are written verbatim into hostile headers).",
         "technique": "property-based testing (rapid): generated read histories and hostile length fields, model oracle",
-        "legs": [leg("^TestC06$", 8000, 40000, qshards=8), fuzzleg("FuzzC06", 60)],
+        "legs": [leg("^TestC06$", 8000, 200000, qshards=8), fuzzleg("FuzzC06", 60)],
     },
     "C08": {
         "title": "Control frames: handlers see each frame once; ping answered, close echoed",
@@ -111,7 +111,7 @@ PROPS = {
         "level_text": "Bounded random exploration of control-frame placements and payloads against the wire-order model.",
         "level_note": "Write-back bytes are decoded by the independent decoder.",
         "technique": "property-based testing (rapid): generated control-frame placements, wire-order model oracle",
-        "legs": [leg("^TestC08$", 10000, 40000, qshards=8), fuzzleg("FuzzC08", 60)],
+        "legs": [leg("^TestC08$", 10000, 200000, qshards=8), fuzzleg("FuzzC08", 60)],
     },
     "C07": {
         "title": "Untrusted network input never panics, hangs or allocates out of proportion",
@@ -121,7 +121,7 @@ PROPS = {
         "level_text": "Fuzzing / random exploration: evidence of absence of crashes over generated and coverage-guided inputs, never a proof.",
         "level_note": "Transports are scripted; watchdog is wall-clock (120 s for cases that take < 10 ms).",
         "technique": "fuzzing: rapid structured-mutation generators (quick) + native coverage-guided go test -fuzz campaigns (thorough), crash/no-progress/allocation oracle",
-        "legs": [leg("^TestC07$", 15000, 80000, qshards=8),
+        "legs": [leg("^TestC07$", 15000, 240000, qshards=8),
                  fuzzleg("FuzzC07Frames", 100), fuzzleg("FuzzC07DialReply", 60), fuzzleg("FuzzC07ProxyReply", 60), fuzzleg("FuzzC07Headers", 60)],
     },
     "C09": {
@@ -132,7 +132,7 @@ PROPS = {
         "level_text": "Bounded random exploration of positions and paths of the close inside write programs (sequential interleavings at API-call granularity).",
         "level_note": "Wire judged by the independent decoder; error identities asserted only where the statement names them (ErrCloseSent).",
         "technique": "property-based testing (rapid): generated programs with an inserted close action, history invariant oracle",
-        "legs": [leg("^TestC09$", 8000, 50000, qshards=8), raceleg("^TestC09Owned$", 600, 6000)],
+        "legs": [leg("^TestC09$", 8000, 200000, qshards=8), raceleg("^TestC09Owned$", 600, 30000)],
     },
     "C10": {
         "title": "Write failures are fail-stop; bad requests write nothing; deadlines are applied",
@@ -142,7 +142,7 @@ PROPS = {
         "level_text": "Every write-side transport operation of each generated program is failed in turn with every fault kind (exhaustive per program); programs are sampled.",
         "level_note": "The scripted transport records what is offered to Write after a failure, so 'nothing more is ever written' is observed directly.",
         "technique": "fault-injection enumeration (every transport operation x every fault kind) over rapid-generated write programs",
-        "legs": [leg("^TestC10$", 1000, 5000, qshards=8)],
+        "legs": [leg("^TestC10$", 1000, 50000, qshards=8)],
     },
     "C20": {
         "title": "Pooled write buffers are held only while writing and never touched after release",
@@ -152,7 +152,7 @@ PROPS = {
         "level_text": "Bounded random exploration of programs x interleavings with a reference count of open writers.",
         "level_note": "Interleaving granularity is one public API call.",
         "technique": "property-based testing (rapid): generated multi-connection schedules, instrumented pool, invariant after every step",
-        "legs": [leg("^TestC20$", 8000, 40000, qshards=8), raceleg("^TestC20Conc$", 300, 3000)],
+        "legs": [leg("^TestC20$", 8000, 240000, qshards=8), raceleg("^TestC20Conc$", 300, 12000)],
     },
     "C11": {
         "title": "Documented concurrency contract: race-free, frames atomic, WriteControl bounded",
@@ -162,7 +162,7 @@ PROPS = {
         "level_text": "Bounded exploration of generated schedules with an owned scheduler and clock (deterministic), plus randomized real-parallel stress under the race detector. This is the weakest fit for property-based testing: 'for all schedules' is sampled.",
         "level_note": "Needs go1.26.8 (testing/synctest) and -race; both are pre-installed.",
         "technique": "property-based testing (rapid) of schedules inside testing/synctest bubbles (owned scheduler + fake clock) and race-detector stress",
-        "legs": [raceleg("^TestC11Owned$", 400, 5000), raceleg("^TestC11Free$", 300, 4000)],
+        "legs": [raceleg("^TestC11Owned$", 400, 25000), raceleg("^TestC11Free$", 300, 20000)],
     },
     "C19": {
         "title": "A PreparedMessage equals WriteMessage on every connection it is sent to",
@@ -172,7 +172,7 @@ PROPS = {
         "level_text": "Bounded random exploration of send histories over connection populations with a per-send decode + differential oracle.",
         "level_note": "Twin connections are created per send through the public API.",
         "technique": "property-based testing (rapid): generated send histories, independent-decoder + differential (WriteMessage twin) oracle; race-detector leg",
-        "legs": [leg("^TestC19$", 5000, 30000, qshards=8), raceleg("^TestC19Conc$", 300, 3000)],
+        "legs": [leg("^TestC19$", 5000, 120000, qshards=8), raceleg("^TestC19Conc$", 300, 12000)],
     },
     "C12": {
         "title": "Server handshake: upgrade iff request is a valid opening handshake; correct 101",
@@ -182,7 +182,7 @@ PROPS = {
         "level_text": "Bounded random exploration of the request grammar and Upgrader settings against an independent classifier and a strict response parser.",
         "level_note": "net/http's request parser is the trusted front end (requests it refuses are counted and discarded).",
         "technique": "property-based testing (rapid): grammar-based request generator, independent classifier + strict-parser oracle",
-        "legs": [leg("^TestC12$", 20000, 100000, qshards=8), fuzzleg("FuzzC12", 60)],
+        "legs": [leg("^TestC12$", 20000, 1500000, qshards=8), fuzzleg("FuzzC12", 60)],
     },
     "C13": {
         "title": "Default origin policy admits same-origin requests only",
@@ -192,7 +192,7 @@ PROPS = {
         "level_text": "Bounded random exploration of adversarial near-miss origins against an independent origin-host extractor.",
         "level_note": "The extractor is written from RFC 3986 section 3.2 in harness/wsref.",
         "technique": "property-based testing (rapid): adversarial origin generator, independent-parser oracle (safety + liveness)",
-        "legs": [leg("^TestC13$", 20000, 150000, qshards=8), fuzzleg("FuzzC13", 60)],
+        "legs": [leg("^TestC13$", 20000, 1500000, qshards=8), fuzzleg("FuzzC13", 60)],
     },
     "C14": {
         "title": "Client handshake: connect iff the reply proves the server accepted this request",
@@ -202,7 +202,7 @@ PROPS = {
         "level_text": "Bounded random exploration of replies, URLs, settings and header maps with an independent digest and a strict request parser.",
         "level_note": "The scripted server computes replies from the bytes the client actually wrote.",
         "technique": "property-based testing (rapid): scripted-server reply generator, iff-classifier oracle, strict request parser",
-        "legs": [leg("^TestC14$", 10000, 50000, qshards=8), fuzzleg("FuzzC14", 60)],
+        "legs": [leg("^TestC14$", 10000, 1000000, qshards=8), fuzzleg("FuzzC14", 60)],
     },
     "C15": {
         "title": "Both endpoints always agree on whether compression is in use",
@@ -212,7 +212,7 @@ PROPS = {
         "level_text": "Bounded random exploration of the configuration matrix, offer/announcement grammars and toggle histories with an independent codec as observer.",
         "level_note": "Compression is observed on the wire, not through library state.",
         "technique": "property-based testing (rapid): real Dialer/Upgrader pairs plus scripted peers, independent-codec oracle",
-        "legs": [leg("^TestC15$", 6000, 40000, qshards=8)],
+        "legs": [leg("^TestC15$", 6000, 240000, qshards=8)],
     },
     "C17": {
         "title": "No bytes are lost or reordered at the handshake boundary",
@@ -222,7 +222,7 @@ PROPS = {
         "level_text": "Every split point of each generated stream is enumerated (exhaustive per stream and buffer combination); streams and buffer sizes are sampled. The split point is the injected condition, hence fault_enumeration.",
         "level_note": "Reference model from the independent encoder.",
         "technique": "exhaustive split-point enumeration over rapid-generated streams, reference-model oracle",
-        "legs": [leg("^TestC17$", 80, 800, qshards=8)],
+        "legs": [leg("^TestC17$", 80, 6400, qshards=8)],
     },
     "C18": {
         "title": "Proxy tunnelling and TLS are applied on every dial path",
@@ -234,7 +234,7 @@ PROPS = {
         "level_text": "The configuration matrix is finite and enumerated completely in every run; hosts and proxy replies are sampled.",
         "level_note": "crypto/tls and crypto/x509 (standard library) are trusted for the peer side and certificate generation.",
         "technique": "exhaustive configuration-matrix enumeration + property-based testing (rapid) of hosts/replies, table oracle from the documentation, in-process proxy/TLS peers",
-        "legs": [leg("^TestC18Cells$", 1, 1, qshards=8, tshards=16), leg("^TestC18Rand$", 600, 8000, qshards=8)],
+        "legs": [leg("^TestC18Cells$", 1, 1, qshards=8, tshards=16), leg("^TestC18Rand$", 600, 64000, qshards=8)],
     },
     "C16": {
         "title": "Handshakes clean up on every failure path and leave no deadline on success",
@@ -244,7 +244,7 @@ PROPS = {
         "level_text": "Every transport operation of each handshake path is failed in turn with every fault kind (exhaustive per path and setting); settings are sampled. Bounded-wait clause decided on a fake clock.",
         "level_note": "Which operation failed and whether Close was called is taken from the instrumented pipe's own log.",
         "technique": "fault-injection enumeration (every first-hop operation x every fault kind) + fake-clock (testing/synctest) stall scenarios generated by rapid",
-        "legs": [leg("^TestC16$", 120, 1000, qshards=8), raceleg("^TestC16Stall$", 250, 3000)],
+        "legs": [leg("^TestC16$", 120, 4000, qshards=8), raceleg("^TestC16Stall$", 250, 15000)],
     },
 }
 
